@@ -232,7 +232,7 @@ pub fn presence_prefixes(kind: Kind) -> Vec<Vec<u32>> {
                 w.extend(to_words(&s));
                 out.push(w);
             }
-            if GIF {
+            if gif() {
                 // certifications present (0x13): every subset of the six certifications
                 let ci = getinfo_optional().iter().position(|(key, _)| *key == 0x13).unwrap();
                 let mut top = vec![false; k];
